@@ -74,7 +74,7 @@ CLAIMED["C20"] = dict(
 )
 
 CLAIMED["C03"] = dict(
-    text="Bounded symbolic execution of the real StreamEndpoint (over SocketStreamTransport + fake socket), AsyncStreamEndpoint (over an in-memory transport) and TCPNetworkClient (recv_packet, iter_received_packets): frames with symbolic payloads plus an incomplete tail, the peer closes after a symbolic number of bytes, kernel read sizes symbolic, both receive paths, several max_recv_size. Asserted: packets returned == frames fully contained before the close, in order, once; all delivered before the first end-of-stream; every later call reports end-of-stream again (a transport that blocks after its single EOF makes re-reading visible as a hang); the tail is never delivered. Also: AsyncTCPNetworkClient.recv_packet over an in-memory backend, a serializer whose packets may be None, and a pending SO_ERROR on the client's socket (never eats a packet already received).",
+    text="Bounded symbolic execution of the real StreamEndpoint (over SocketStreamTransport + fake socket), AsyncStreamEndpoint (over an in-memory transport) and TCPNetworkClient (recv_packet, iter_received_packets): frames with symbolic payloads plus an incomplete tail, the peer closes after a symbolic number of bytes, kernel read sizes symbolic, both receive paths, several max_recv_size. Asserted: packets returned == frames fully contained before the close, in order, once; all delivered before the first end-of-stream; every later call reports end-of-stream again (a transport that blocks after its single EOF makes re-reading visible as a hang); the tail is never delivered. Also: AsyncTCPNetworkClient.recv_packet over an in-memory backend, a serializer whose packets may be None, and a pending SO_ERROR on the client's socket (never eats a packet already received). timed-eof shards: recv_packet(timeout=T), T in {0,1,2} ticks with a solver-chosen clock around the peer's close - a call may time out before end-of-stream was reported, never after.",
     design="4/C03",
     technique="symbolic execution of real code (CrossHair+z3): payload bytes, close position, read sizes and would-block pattern as solver variables",
 )
@@ -99,10 +99,10 @@ CLAIMED["C12"] = dict(
 )
 
 CLAIMED["C14"] = dict(
-    text="Bounded symbolic execution with the crash point as a solver variable: each close path (stapled transports, aclose_forcefully, AsyncStreamEndpoint.aclose, server-side _ConnectedClientAPI.aclose, AsyncTCPNetworkClient.aclose, the asyncio socket adapter, AsyncTLSStreamTransport.aclose and .wrap with a peer that never answers or a local handshake failure over a wrapped transport whose send fails or stalls; AsyncTCPNetworkClient.aclose while a connection attempt is in flight; client / server-side client aclose while a concurrent send_packet holds the send lock) runs in a task on a deterministic loop; task.cancel() is injected at loop iteration k (symbolic; in the close2 shards a second cancellation at k2), combined with a solver-chosen fault (which wrapped close/send raises OSError or RuntimeError) and whether the TLS shutdown/handshake timeout expires first. Asserted: aclose() was invoked on every wrapped transport (both stapled halves even if the first raised; the wrapped transport after a failed or cancelled wrap()), is_closing() holds, a second aclose() returns promptly and normally. Open known findings F-C14-lockwait-client / -server (close cancelled while waiting for the send lock held by a stalled sender: nothing is closed) are excluded by signature and printed as KNOWN-FINDING.",
+    text="Bounded symbolic execution with the crash point as a solver variable: each close path (stapled transports, aclose_forcefully, AsyncStreamEndpoint.aclose, server-side _ConnectedClientAPI.aclose, AsyncTCPNetworkClient.aclose, the asyncio socket adapter, AsyncTLSStreamTransport.aclose (peer that never answers, or whose close_notify already arrived; shutdown timeout generous or already expired) and .wrap with a peer that never answers or a local handshake failure over a wrapped transport whose send fails or stalls; AsyncTCPNetworkClient.aclose while a connection attempt is in flight; client / server-side client aclose while a concurrent send_packet holds the send lock) runs in a task on a deterministic loop; task.cancel() is injected at loop iteration k (symbolic; in the close2 shards a second cancellation at k2), combined with a solver-chosen fault (which wrapped close/send raises OSError or RuntimeError) and whether the TLS shutdown/handshake timeout expires first. Asserted: aclose() was invoked on every wrapped transport (both stapled halves even if the first raised; the wrapped transport after a failed or cancelled wrap()), is_closing() holds, a second aclose() returns promptly and normally. Open known findings F-C14-lockwait-client / -server (close cancelled while waiting for the send lock held by a stalled sender: nothing is closed) are excluded by signature and printed as KNOWN-FINDING.",
     design="4/C14",
     technique="symbolic execution of real code (CrossHair+z3): cancellation point, fault choice and timeout-first choice as solver variables on a deterministic asyncio loop",
-    note="TLS paths use a stub SSL object (peer silent); real OpenSSL shutdown is outside. Real sockets are outside (in-memory transports).",
+    note="TLS paths use a stub SSL object (peer silent, or closing handshake completing at once); real OpenSSL shutdown is outside. Real sockets are outside (in-memory transports).",
 )
 
 CLAIMED["C19"] = dict(
@@ -112,14 +112,14 @@ CLAIMED["C19"] = dict(
 )
 
 CLAIMED["C18"] = dict(
-    text="Bounded symbolic execution of the real asynchronous server lifecycle (BaseAsyncNetworkServerImpl.serve_forever / server_activate / server_close / shutdown / is_serving / is_listening through the real AsyncTCPNetworkServer and AsyncUDPNetworkServer) on a deterministic loop with in-memory listeners whose creation suspends: a solver-chosen history of lifecycle calls (each in a new task) and loop iterations, from a cold server or from a serving one with a connected client whose disconnection hook suspends (UDP: a datagram whose handler suspends). Asserted: shutdown() returns only when serving has fully stopped; serve_forever() ends only as returned / ServerAlreadyRunning (another one really running) / ServerClosedError (close really called); listeners closed after server_close(); a stopped server serves again, a second concurrent serve_forever is refused; no call hangs or raises anything else.",
+    text="Bounded symbolic execution of the real asynchronous server lifecycle (BaseAsyncNetworkServerImpl.serve_forever / server_activate / server_close / shutdown / is_serving / is_listening through the real AsyncTCPNetworkServer and AsyncUDPNetworkServer) on a deterministic loop with in-memory listeners whose creation suspends: a solver-chosen history of lifecycle calls (each in a new task) and loop iterations, from a cold server or from a serving one with a connected client whose disconnection hook suspends (UDP: a datagram whose handler suspends). Asserted: shutdown() returns only when serving has fully stopped; serve_forever() ends only as returned / ServerAlreadyRunning (another one really running) / ServerClosedError (close really called); listeners closed after server_close(); a stopped server serves again, a second concurrent serve_forever is refused; no call hangs or raises anything else. Threaded servers: only two sequential steps from constructed states - NetworkServerThread.run() sets the event start() waits on however serve_forever() ends; BaseStandaloneNetworkServerImpl.shutdown(T) returns only with the is-shutdown event set (T=None) or after a wait <= T.",
     design="4/C18",
     technique="symbolic execution of real code (CrossHair+z3) over lifecycle call histories on a deterministic asyncio loop",
-    note="Asynchronous server only. The threaded standalone servers (ThreadsPortal, threading.Event hand-offs between OS threads) are NOT claimed: no installed engine makes thread interleavings symbolic. server_close() refused by the documented set-up guard (BusyResourceError) is treated as a refusal, not as a close.",
+    note="Asynchronous servers; of the threaded standalone servers (ThreadsPortal, threading.Event hand-offs between OS threads) only two sequential steps are checked - their thread interleavings are NOT claimed: no installed engine makes them symbolic. server_close() refused by the documented set-up guard (BusyResourceError) is treated as a refusal, not as a close.",
 )
 
 CLAIMED["C17"] = dict(
-    text="Bounded symbolic execution of the real AsyncTCPNetworkServer and AsyncUDPNetworkServer (client initializers, exception fences, _ClientContext.__aexit__, lowlevel handler builders, task-group wiring) on a deterministic loop with in-memory listeners: one faulty client raises a solver-chosen exception class (plain, group, ConnectionError, ClientClosedError, TimeoutError, mixed groups) at a shard-chosen hook position (on_connection before/after an await, handle before the first yield / after a request / while handling a thrown parse error / re-raising it / parse error after a valid pipelined request / yielding an invalid timeout, on_disconnection; a ConnectionError of any flavour on receive while the handler waits, which must close the generator, not be thrown into it; TCP on both receive paths) or is reset right after accept, while a healthy client's traffic is interleaved by a solver-chosen schedule. Asserted: the server task keeps running, nothing reaches the event loop, the healthy client gets every response; TCP: faulty connection closed, on_disconnection ran iff on_connection completed; UDP: a later datagram of the faulty address is handled by a fresh generator.",
+    text="Bounded symbolic execution of the real AsyncTCPNetworkServer and AsyncUDPNetworkServer (client initializers, exception fences, _ClientContext.__aexit__, lowlevel handler builders, task-group wiring) on a deterministic loop with in-memory listeners: one faulty client raises a solver-chosen exception class (plain, group, ConnectionError, ClientClosedError, TimeoutError, mixed groups) at a shard-chosen hook position (on_connection before/after an await, handle before the first yield / after a request / while handling a thrown parse error / re-raising it / parse error after a valid pipelined request / yielding an invalid timeout, on_disconnection; a ConnectionError of any flavour on receive while the handler waits, which must close the generator, not be thrown into it; TCP on both receive paths) or is reset right after accept, or has lost its peer address when the connection task starts, while a healthy client's traffic is interleaved by a solver-chosen schedule. Asserted: the server task keeps running, nothing reaches the event loop, the healthy client gets every response; TCP: faulty connection closed, on_disconnection ran iff on_connection completed; UDP: a later datagram of the faulty address is handled by a fresh generator. TCP: after the last client left the server still serves and a later client is served. listener-setup shards: the real asyncio ListenerSocketAdapter.serve() with a scripted sock_accept and an accepted-socket factory failing with a solver-chosen exception class (reset, ENOTCONN, EINVAL, EBADF, SSLError, TimeoutError, ValueError, group): serve() keeps running, healthy and later connections reach the handler, faulty sockets are closed.",
     design="4/C17",
     technique="symbolic execution of real code (CrossHair+z3): exception class and schedule as solver variables on a deterministic asyncio loop",
     note="Exception subclasses and groups only (KeyboardInterrupt/SystemExit outside); TLS handshake failures outside (real OpenSSL); kernel RST modelled as ConnectionResetError on first read.",
